@@ -11,6 +11,7 @@ pub mod c02_decode;
 pub mod c03_limits;
 pub mod c06_convert;
 pub mod c07_chunk_size;
+pub mod c08_tamper;
 pub mod c09_receive;
 pub mod c12_sequence;
 pub mod c13_keys;
